@@ -88,9 +88,16 @@ def measure(spec: Spec, cfg: dict, st: str, mag: int, warm, bs, via: str = "load
         got = _as64(getattr(fresh, st))
         want = before + _as64(inj)
     else:
+        prev = f0
         for b in bs:
             if try_update(m, b) is not None or try_update(fresh, b) is not None:
                 return "an update raised"
+            cur_f = _as64(getattr(fresh, st)).clone()
+            if cur_f.shape == prev.shape and not torch.equal(cur_f - prev, (cur_f - prev).round()):
+                # a batch whose own statistic is not an integer (a sum of sample VALUES that only happens to total an
+                # integer over the batches): intermediate totals need not be representable — not a count, C07's subject
+                return "skipped:non-integer-statistic"
+            prev = cur_f
         delta = _as64(getattr(fresh, st)) - f0
         got = _as64(getattr(m, st))
         want = _as64(inj) + delta
